@@ -27,6 +27,12 @@ for _v in ("hquery", "hquery->ai", "hquery->lookups", "hquery->name", "hquery->n
     EXEMPT[("ares_getaddrinfo_int", _v, "leak")] = ("only via next_dns_lookup()'s default: arm (nothing started, returns TRUE), unreachable because the "
                                                    "address family is validated first; that validation is itself checked by R-C01-ONCE")
 
+# consumption contracts that exemptions above rely on: (function, parameter index, return values) -> on every outcome with one of those
+# return values the parameter must have been consumed (released or handed on).  Checked against the inferred summaries on every run.
+CONTRACTS = [
+    ("fake_addrinfo", 3, ("ARES_TRUE",), "a TRUE result tells ares_getaddrinfo_int that the request is finished and 'ai' no longer its business"),
+]
+
 _CACHE = {}
 
 
@@ -82,6 +88,17 @@ def own_rule(prog, R, rid, files, floor, desc=None, kinds=("leak", "double-relea
             r.viol(key, f.name, "%s:%s" % (f.file, x["ln"]), x["msg"])
         if not bad:
             r.ok("fn=%s (%d allocation sites)" % (f.name, len(sites)), f.loc(f.ln))
+    for (fn, idx, rets, why) in CONTRACTS:
+        cands = [f for f in prog.by_name.get(fn, []) if files is None or f.file in files]
+        for f in cands:
+            summ = o.summary(f) or []
+            key = "fn=%s consumes parameter %d when it returns %s" % (fn, idx, "/".join(rets))
+            bad = [oc for oc in summ if oc[0] is not None and (set(oc[0]) & set(rets)) and idx not in oc[1]]
+            if bad:
+                pn = f.params[idx]["n"] if idx < len(f.params) else "?"
+                r.viol(key, f.name, f.loc(f.ln), "%s can return %s without having released or handed on '%s' (%s): the caller stops looking after it and it leaks" % (fn, "/".join(rets), pn, why))
+            else:
+                r.ok(key, f.loc(f.ln))
     if include_contract:
         for x in o.contracts:
             key = "fn=%s var=%s kind=contract" % (x["func"], x["var"])
